@@ -391,16 +391,30 @@ class Evaluator:
             v = self._block_body(body, catches, env)
         except (ReturnSig, BreakSig, ContinueSig):
             if fin is not None and "finally-skipped-on-exit" not in self.flags:
-                self.exec_stmts(fin, env)
+                try:
+                    self.exec_stmts(fin, env)
+                except (ReturnSig, BreakSig, ContinueSig):
+                    raise Unspecified("exit statement in a finally part "
+                                      "while another exit is in progress")
             raise
         except CklError:
             if fin is not None:
-                self.exec_stmts(fin, env)
+                try:
+                    self.exec_stmts(fin, env)
+                except (ReturnSig, BreakSig, ContinueSig):
+                    # "an unmatched error continues outward unchanged": an
+                    # exit statement in the finally part does not swallow it
+                    if "finally-exit-swallows-error" in self.flags:
+                        raise
             raise
         if fin is not None:
-            self.exec_stmts(fin, env)
-            if "finally-twice" in self.flags:
+            try:
                 self.exec_stmts(fin, env)
+                if "finally-twice" in self.flags:
+                    self.exec_stmts(fin, env)
+            except (ReturnSig, BreakSig, ContinueSig):
+                raise Unspecified("exit statement in a finally part on the "
+                                  "normal path")
         return v
 
     def _block_body(self, body, catches, env):
